@@ -304,6 +304,16 @@ TW('C09', 'twin-fd-masks-respelled', DS, "  eigvecs *= 1 - has_significant_paddi
 TW('C09', 'twin-fd-retain-zero-eigen-direction', DS, "  eigvecs *= deflated_eigs > 0  # Don't introduce new directions with 0 eigs.\n", "  eigvecs *= deflated_eigs >= 0  # Don't introduce new directions with 0 eigs.\n")
 TW('C09', 'twin-fd-norm-window', DS, "  safe_normed = (0.99 <= norms) & (norms <= 1.01)\n", "  safe_normed = (norms >= 0.995) & (1.005 >= norms)\n")
 
+M(['C09', 'C15'], 'sk-mask-inverted', SK, "  mask = deflated > 0\n", "  mask = deflated < 0\n")
+M(['C09', 'C15'], 'sk-mask-keeps-zero-eigen-direction', SK, "  mask = deflated > 0\n", "  mask = deflated >= 0\n")
+M(['C09', 'C15'], 'sk-mask-threshold', SK, "  mask = deflated > 0\n", "  mask = deflated > 1\n")
+M(['C09', 'C15'], 'sk-inv-tail-zero-guard-loose', SK, "  inv_tail = jnp.where(tail > 0, (tail + eps) ** alpha, 0.0)\n", "  inv_tail = jnp.where(tail >= 0, (tail + eps) ** alpha, 0.0)\n")
+M(['C09', 'C15'], 'sk-ekfac-zero-guard-loose', SK, "        undeflated_ekfac > 0, (undeflated_ekfac + eps) ** alpha, 0.0\n", "        undeflated_ekfac >= 0, (undeflated_ekfac + eps) ** alpha, 0.0\n")
+M(['C09', 'C15'], 'sk-cutoff-test-inverted', SK, "  cutoff = jnp.maximum(s[k], 0.0) if k < len(s) else 0.0", "  cutoff = jnp.maximum(s[k], 0.0) if k > len(s) else 0.0")
+TW(['C09', 'C15'], 'twin-sk-mask-mirrored', SK, "  mask = deflated > 0\n", "  mask = 0 < deflated\n")
+TW(['C09', 'C15'], 'twin-sk-inv-tail-negated-guard', SK, "  inv_tail = jnp.where(tail > 0, (tail + eps) ** alpha, 0.0)\n", "  inv_tail = jnp.where(tail <= 0, 0.0, (tail + eps) ** alpha)\n")
+TW(['C09', 'C15'], 'twin-sk-cutoff-test-mirrored', SK, "  cutoff = jnp.maximum(s[k], 0.0) if k < len(s) else 0.0", "  cutoff = jnp.maximum(s[k], 0.0) if len(s) > k else 0.0")
+
 # ------------------------------------------------------------------ C10
 M('C10', 'pack-const-collides-tail', DS, "  precond = precond.at[0, -1].set(new_const)", "  precond = precond.at[1, -1].set(new_const)")
 M('C10', 'unpack-eigvals-region', DS, "  eigvals = preconditioner[-r:, -1]\n", "  eigvals = preconditioner[:r, -1]\n")
